@@ -263,9 +263,9 @@ RESULT_LIKE = {"Err": False, "Ok": True}
 
 
 def _const_bool(text):
-    if text == "const true":
+    if text in ("const true", "true"):
         return True
-    if text == "const false":
+    if text in ("const false", "false"):
         return False
     return None
 
@@ -457,8 +457,14 @@ class PathCond:
                 if p not in need or (p, x) in back or p not in memo:
                     continue
                 a = self.edge_atom(p, lab)
-                if a is not None and a[0][0] in ("local", "const"):
-                    a = None  # drop flags, unresolved multi-definition locals, constant conditions
+                if a is not None and a[0][0] == "const":
+                    # constant condition: only the matching edge is feasible
+                    cb = _const_bool(a[0][1])
+                    if cb is not None and isinstance(a[1], bool) and cb != a[1]:
+                        continue
+                    a = None
+                if a is not None and a[0][0] == "local":
+                    a = None  # drop flags and other unresolved multi-definition locals
                 if a is not None and relevant is not None and not relevant(a[0], a[1]):
                     a = None
                 for cs in memo[p]:
